@@ -245,8 +245,9 @@ fn validate_data(
 
             for (index, fields_schema) in constructors.iter() {
                 if let Ok(fields) = expect_data_constr(term, *index) {
+                    // Right constructor, wrong number of fields: not a match.
                     if fields_schema.len() != fields.len() {
-                        panic!("fields length different");
+                        continue;
                     }
 
                     for (instance, schema) in iter::zip(fields, fields_schema) {
